@@ -1,5 +1,525 @@
-import Bkl
+/-
+  C08 — "Every invocation terminates with complete output or a reported error …  Reference
+  cycles of every kind — $merge/$replace loops, self-referential interpolation, a subtree merged
+  into itself, $parent cycles between files — are reported as errors."
+
+  Every model function is total (structural recursion, fuel recursion with fuel = the depth
+  guard 1000 of the Go code, or well-founded recursion), so "terminates" holds by construction
+  (`C08_total`).  The theorems below say what the depth guard turns the cyclic inputs into, for
+  EVERY fuel:
+
+  * forwarding references (`$merge:k` / `$replace:k` strings, `{$replace: k}` maps): every closed
+    system — n-cycles, lassos, mixed forms — is `circularRef` (`C08_string_cycle`,
+    `C08_string_replace_cycle`, `C08_map_replace_cycle_2`, `C08_forwarding_closed_is_error`);
+  * interpolation cycles are `circularRef` (`C08_interp_cycle`, `…_2`, `…_general`, `…_doc`);
+  * `$parent` cycles between files are `circularRef` (`C08_parent_cycle`, `…_general`, `…_list`);
+  * a map key that evaluates to a non-string is `invalidType` (`C08_key_not_string_is_error`);
+  * FALSE as worded: the MAP form of a `$merge` loop, `a: {$merge: b}, b: {$merge: a}` (and the
+    self-loop `a: {$merge: a}`), is NOT reported: the host is expanded in place after its
+    `$merge` key was deleted, so the second visit finds an empty map and the evaluation ends
+    with `{a: {}, b: {}}` (`C08_map_cycle_2_false`, `C08_map_cycle_2_partial`,
+    `C08_map_self_cycle_false`, `C08_map_self_cycle_partial`).  The Go binary agrees.  With
+    content in the hosts the loop is reported, as `uselessOverride` (`C08_map_cycle_2_with_keys`).
+  * likewise "a subtree merged into itself" (`a: {$merge: [], x: 1}`) is evaluated once and
+    yields a finite value (`C08_self_merge_value`).
+
+  Helper lemmas: `BklProofs/Lemmas/Cycles.lean`.
+-/
+import BklProofs.Lemmas.Cycles
+set_option linter.unusedVariables false
 namespace Bkl
-/-- placeholder until the property theorems land -/
-theorem C08_placeholder : validate (.int 1) = .ok () := by simp [validate]; rfl
+
+/-! ## 1. forwarding references: `$merge:` / `$replace:` strings, `$replace` maps -/
+
+/-- The general statement.  A document `kvs` is a *closed system of forwarding references*
+    (`RefClosed`) if every entry value, evaluated against this root, resolves a simple key of the
+    same document and continues with the referenced value (`NextRef`: this is what `$merge:k`,
+    `$replace:k` and `{$replace: k}` do).  Then the evaluation is `circularRef` for every fuel:
+    every n-cycle, every lasso into a cycle, every mixture of the three forms. -/
+theorem C08_forwarding_closed_is_error {kvs : Fields} (H : RefClosed kvs) (hne : kvs ≠ [])
+    (h0 : fget kvs "$merge" = none) (h1 : fget kvs "$replace" = none)
+    (fuel : Nat) (docs : List Val) :
+    process1 fuel docs (.map kvs) (some []) (.map kvs) = .error .circularRef :=
+  refClosed_doc_error H hne h0 h1 fuel docs (some [])
+
+/-- … and each single entry is `circularRef` wherever it is evaluated. -/
+theorem C08_forwarding_closed_entry_is_error {kvs : Fields} (H : RefClosed kvs)
+    (fuel : Nat) (docs : List Val) (loc : Loc) (p : String × Val) (hp : p ∈ kvs) :
+    process1 fuel docs (.map kvs) loc p.2 = .error .circularRef :=
+  refClosed_entry_error H fuel docs loc p hp
+
+-- non-vacuity: a lasso `c → a ⇄ b` mixing the three forms
+example : RefClosed [("a", .str "$merge:b"), ("b", .map [("$replace", .str "a")]),
+    ("c", .str "$replace:a")] ∧
+    fget [("a", Val.str "$merge:b"), ("b", .map [("$replace", .str "a")]),
+      ("c", .str "$replace:a")] "$merge" = none ∧
+    fget [("a", Val.str "$merge:b"), ("b", .map [("$replace", .str "a")]),
+      ("c", .str "$replace:a")] "$replace" = none := by
+  refine ⟨?_, by decide, by decide⟩
+  intro p hp
+  simp only [List.mem_cons, List.not_mem_nil, or_false] at hp
+  rcases hp with rfl | rfl | rfl
+  · exact ⟨"b", .map [("$replace", .str "a")], nextRef_str_merge _ "b", simpleKey_b, by decide⟩
+  · exact ⟨"a", .str "$merge:b", nextRef_map_replace _ (by decide) (by decide), simpleKey_a,
+      by decide⟩
+  · exact ⟨"a", .str "$merge:b", nextRef_str_replace _ "a", simpleKey_a, by decide⟩
+
+/-- The n-cycle of `$merge:` strings, for every n ≥ 1 and all simple key names
+    `k₀ … kₙ₋₁` (distinctness and sortedness are not even needed):
+    `k₀: $merge:k₁, k₁: $merge:k₂, …, kₙ₋₁: $merge:k₀` is `circularRef` for every fuel. -/
+theorem C08_string_cycle (ks : List String) (hne : ks ≠ []) (hk : ∀ k ∈ ks, SimpleKey k)
+    (hm : "$merge" ∉ ks) (hr : "$replace" ∉ ks) (fuel : Nat) (docs : List Val) :
+    process1 fuel docs (.map (cycleFields (fun k => .str ("$merge:" ++ k)) ks)) (some [])
+      (.map (cycleFields (fun k => .str ("$merge:" ++ k)) ks)) = .error .circularRef :=
+  C08_forwarding_closed_is_error
+    (cycleFields_refClosed _ ks hk (fun k _ => nextRef_str_merge _ k))
+    (cycleFields_ne_nil _ hne) (cycleFields_fget_none _ ks hm) (cycleFields_fget_none _ ks hr)
+    fuel docs
+
+/-- The same for `$replace:` strings. -/
+theorem C08_string_replace_cycle (ks : List String) (hne : ks ≠ [])
+    (hk : ∀ k ∈ ks, SimpleKey k) (hm : "$merge" ∉ ks) (hr : "$replace" ∉ ks)
+    (fuel : Nat) (docs : List Val) :
+    process1 fuel docs (.map (cycleFields (fun k => .str ("$replace:" ++ k)) ks)) (some [])
+      (.map (cycleFields (fun k => .str ("$replace:" ++ k)) ks)) = .error .circularRef :=
+  C08_forwarding_closed_is_error
+    (cycleFields_refClosed _ ks hk (fun k _ => nextRef_str_replace _ k))
+    (cycleFields_ne_nil _ hne) (cycleFields_fget_none _ ks hm) (cycleFields_fget_none _ ks hr)
+    fuel docs
+
+-- non-vacuity: the 5-cycle a → b → c → d → e → a (sorted keys), and the simple keys "a" … "e"
+example : cycleFields (fun k => .str ("$merge:" ++ k)) ["a", "b", "c", "d", "e"] =
+    [("a", .str "$merge:b"), ("b", .str "$merge:c"), ("c", .str "$merge:d"),
+     ("d", .str "$merge:e"), ("e", .str "$merge:a")] := by decide
+example : (∀ k ∈ ["a", "b", "c", "d", "e"], SimpleKey k) ∧
+    "$merge" ∉ ["a", "b", "c", "d", "e"] ∧ "$replace" ∉ ["a", "b", "c", "d", "e"] := by
+  refine ⟨?_, by decide, by decide⟩
+  intro k hk
+  simp only [List.mem_cons, List.not_mem_nil, or_false] at hk
+  rcases hk with rfl | rfl | rfl | rfl | rfl
+  exacts [simpleKey_a, simpleKey_b, simpleKey_c, simpleKey_d, simpleKey_e]
+
+/-- a key is simple as soon as it is a plain YAML scalar without a dot -/
+theorem C08_simple_key_of_plain {k : String} (h1 : isPlainRef k = true) (h2 : '.' ∉ k.toList) :
+    SimpleKey k := simpleKey_of_plain h1 h2
+
+example : isPlainRef "c" = true ∧ '.' ∉ "c".toList := ⟨isPlainRef_c, by decide⟩
+
+/-- the 5-cycle as a concrete document -/
+theorem C08_string_cycle_5 (fuel : Nat) (docs : List Val) :
+    process1 fuel docs
+      (.map [("a", .str "$merge:b"), ("b", .str "$merge:c"), ("c", .str "$merge:d"),
+        ("d", .str "$merge:e"), ("e", .str "$merge:a")]) (some [])
+      (.map [("a", .str "$merge:b"), ("b", .str "$merge:c"), ("c", .str "$merge:d"),
+        ("d", .str "$merge:e"), ("e", .str "$merge:a")]) = .error .circularRef := by
+  have h := C08_string_cycle ["a", "b", "c", "d", "e"] (by decide)
+    (by
+      intro k hk
+      simp only [List.mem_cons, List.not_mem_nil, or_false] at hk
+      rcases hk with rfl | rfl | rfl | rfl | rfl
+      exacts [simpleKey_a, simpleKey_b, simpleKey_c, simpleKey_d, simpleKey_e])
+    (by decide) (by decide) fuel docs
+  have e : cycleFields (fun k => .str ("$merge:" ++ k)) ["a", "b", "c", "d", "e"] =
+      [("a", .str "$merge:b"), ("b", .str "$merge:c"), ("c", .str "$merge:d"),
+       ("d", .str "$merge:e"), ("e", .str "$merge:a")] := by decide
+  rw [e] at h; exact h
+
+/-- `a: {$replace: b}, b: {$replace: a}` is `circularRef` for every fuel. -/
+theorem C08_map_replace_cycle_2 (fuel : Nat) (docs : List Val) :
+    process1 fuel docs
+      (.map [("a", .map [("$replace", .str "b")]), ("b", .map [("$replace", .str "a")])])
+      (some [])
+      (.map [("a", .map [("$replace", .str "b")]), ("b", .map [("$replace", .str "a")])]) =
+      .error .circularRef := by
+  refine C08_forwarding_closed_is_error ?_ (by decide) (by decide) (by decide) fuel docs
+  intro p hp
+  simp only [List.mem_cons, List.not_mem_nil, or_false] at hp
+  rcases hp with rfl | rfl
+  · exact ⟨"b", .map [("$replace", .str "a")], nextRef_map_replace _ (by decide) (by decide),
+      simpleKey_b, by decide⟩
+  · exact ⟨"a", .map [("$replace", .str "b")], nextRef_map_replace _ (by decide) (by decide),
+      simpleKey_a, by decide⟩
+
+/-! ## 2. the MAP form of a `$merge` loop is not reported -/
+
+/-- Exact behaviour: with at least 4 units of fuel the 2-cycle of `$merge` maps evaluates to
+    `{a: {}, b: {}}`.  Reduction: host `a` loses `$merge` (root: `a: {}`), receives `b`'s map
+    `{$merge: a}` and is evaluated again: it loses `$merge` again, receives its own current
+    content `{}`, and ends as `{}`; then host `b` receives `a`'s content `{}`. -/
+theorem C08_map_cycle_2_partial (fuel : Nat) (docs : List Val) :
+    process1 (fuel + 4) docs mapCycle2 (some []) mapCycle2 =
+      .ok (.map [("a", .map []), ("b", .map [])], .map [("a", .map []), ("b", .map [])]) := by
+  unfold mapCycle2
+  rw [process1_map_plain (by decide) (by decide), foldlM_cons]
+  have ha : process1 (fuel + 3) docs
+      (.map [("a", .map [("$merge", .str "b")]), ("b", .map [("$merge", .str "a")])])
+      (some [.key "a"]) (.map [("$merge", .str "b")]) =
+      .ok (.map [], .map [("a", .map []), ("b", .map [("$merge", .str "a")])]) := by
+    refine (host_step (k := "b") (d := []) (s := [("$merge", .str "a")])
+      (next := [("$merge", .str "a")])
+      (rkvs1 := [("a", .map []), ("b", .map [("$merge", .str "a")])])
+      (rkvs2 := [("a", .map [("$merge", .str "a")]), ("b", .map [("$merge", .str "a")])])
+      simpleKey_b (by decide) (by decide) (by decide) (by decide) (by decide)
+      (mergeFields_empty_single _ _ (by decide)) (by decide)).trans ?_
+    refine (host_step (k := "a") (d := []) (s := []) (next := [])
+      (rkvs1 := [("a", .map []), ("b", .map [("$merge", .str "a")])])
+      (rkvs2 := [("a", .map []), ("b", .map [("$merge", .str "a")])])
+      simpleKey_a (by decide) (by decide) (by decide) (by decide) (by decide)
+      (mergeFields_nil _) (by decide)).trans ?_
+    rw [process1_empty_map]
+  have hb : process1 (fuel + 3) docs
+      (.map [("a", .map []), ("b", .map [("$merge", .str "a")])])
+      (some [.key "b"]) (.map [("$merge", .str "a")]) =
+      .ok (.map [], .map [("a", .map []), ("b", .map [])]) := by
+    refine (host_step (k := "a") (d := []) (s := []) (next := [])
+      (rkvs1 := [("a", .map []), ("b", .map [])])
+      (rkvs2 := [("a", .map []), ("b", .map [])])
+      simpleKey_a (by decide) (by decide) (by decide) (by decide) (by decide)
+      (mergeFields_nil _) (by decide)).trans ?_
+    rw [process1_empty_map]
+  have ea : childLoc (some []) "a" = some [.key "a"] := rfl
+  have eb : childLoc (some []) "b" = some [.key "b"] := rfl
+  simp only [mapStep, ea, eb, ha, hb, R_bind_ok, Val.isNull, Bool.false_eq_true, if_false,
+    process1_key_plain (k := "a") (by decide) (by decide),
+    process1_key_plain (k := "b") (by decide) (by decide), R_pure, foldlM_cons, foldlM_nil]
+  exact congrArg Except.ok (by decide)
+
+/-- The requested statement "for every fuel the result is an error" is FALSE for the map form. -/
+theorem C08_map_cycle_2_false :
+    ¬ ∀ fuel, ∃ e, process1 fuel [] mapCycle2 (some []) mapCycle2 = .error e := by
+  intro h
+  obtain ⟨e, he⟩ := h 4
+  rw [C08_map_cycle_2_partial 0 []] at he
+  cases he
+
+/-- In particular at the depth limit used by `processDoc` (1000). -/
+theorem C08_map_cycle_2_at_depth_limit (docs : List Val) :
+    process1 depthLimit docs mapCycle2 (some []) mapCycle2 =
+      .ok (.map [("a", .map []), ("b", .map [])], .map [("a", .map []), ("b", .map [])]) :=
+  C08_map_cycle_2_partial 996 docs
+
+/-- Exact behaviour of the self-loop: `{a: {}}` (fuel ≥ 3). -/
+theorem C08_map_self_cycle_partial (fuel : Nat) (docs : List Val) :
+    process1 (fuel + 3) docs mapSelfCycle (some []) mapSelfCycle =
+      .ok (.map [("a", .map [])], .map [("a", .map [])]) := by
+  unfold mapSelfCycle
+  rw [process1_map_plain (by decide) (by decide), foldlM_cons]
+  have ha : process1 (fuel + 2) docs (.map [("a", .map [("$merge", .str "a")])])
+      (some [.key "a"]) (.map [("$merge", .str "a")]) =
+      .ok (.map [], .map [("a", .map [])]) := by
+    refine (host_step (k := "a") (d := []) (s := []) (next := [])
+      (rkvs1 := [("a", .map [])]) (rkvs2 := [("a", .map [])])
+      simpleKey_a (by decide) (by decide) (by decide) (by decide) (by decide)
+      (mergeFields_nil _) (by decide)).trans ?_
+    rw [process1_empty_map]
+  have ea : childLoc (some []) "a" = some [.key "a"] := rfl
+  simp only [mapStep, ea, ha, R_bind_ok, Val.isNull, Bool.false_eq_true, if_false,
+    process1_key_plain (k := "a") (by decide) (by decide), R_pure, foldlM_nil]
+  exact congrArg Except.ok (by decide)
+
+theorem C08_map_self_cycle_false :
+    ¬ ∀ fuel, ∃ e, process1 fuel [] mapSelfCycle (some []) mapSelfCycle = .error e := by
+  intro h
+  obtain ⟨e, he⟩ := h 3
+  rw [C08_map_self_cycle_partial 0 []] at he
+  cases he
+
+/-- When the hosts of the loop carry content, the second visit of `a` merges `a`'s content into
+    itself and the ordinary merge rules report a useless override: an error, though not
+    `circularRef`. -/
+theorem C08_map_cycle_2_with_keys (fuel : Nat) (docs : List Val) :
+    process1 (fuel + 3) docs mapCycle2Keys (some []) mapCycle2Keys = .error .uselessOverride := by
+  unfold mapCycle2Keys
+  rw [process1_map_plain (by decide) (by decide), foldlM_cons]
+  have hn1 : mergeFields [("x", Val.int 1)] [("$merge", .str "a"), ("y", .int 2)] =
+      .ok [("$merge", .str "a"), ("x", .int 1), ("y", .int 2)] := by
+    rw [mergeFields_cons, if_neg (by decide)]
+    have h1 : fget [("x", Val.int 1)] "$merge" = none := by decide
+    have h2 : fset [("x", Val.int 1)] "$merge" (.str "a") =
+        [("$merge", .str "a"), ("x", .int 1)] := by decide
+    simp only [h1, h2]
+    rw [mergeFields_cons, if_neg (by decide)]
+    have h3 : fget [("$merge", Val.str "a"), ("x", Val.int 1)] "y" = none := by decide
+    have h4 : fset [("$merge", Val.str "a"), ("x", Val.int 1)] "y" (.int 2) =
+        [("$merge", .str "a"), ("x", .int 1), ("y", .int 2)] := by decide
+    simp only [h3, h4, mergeFields_nil]
+  have hn2 : mergeFields [("x", Val.int 1), ("y", .int 2)] [("x", Val.int 1), ("y", .int 2)] =
+      .error .uselessOverride := by
+    rw [mergeFields_cons, if_neg (by decide)]
+    have h1 : fget [("x", Val.int 1), ("y", .int 2)] "x" = some (.int 1) := by decide
+    have h2 : merge (.int 1) (.int 1) = .error .uselessOverride := by
+      rw [merge_scalar _ _ rfl]; rfl
+    simp only [h1, h2]
+  have ha : process1 (fuel + 2) docs
+      (.map [("a", .map [("$merge", .str "b"), ("x", .int 1)]),
+        ("b", .map [("$merge", .str "a"), ("y", .int 2)])])
+      (some [.key "a"]) (.map [("$merge", .str "b"), ("x", .int 1)]) =
+      .error .uselessOverride := by
+    refine (host_step (k := "b") (d := [("x", .int 1)]) (s := [("$merge", .str "a"), ("y", .int 2)])
+      (next := [("$merge", .str "a"), ("x", .int 1), ("y", .int 2)])
+      (rkvs1 := [("a", .map [("x", .int 1)]), ("b", .map [("$merge", .str "a"), ("y", .int 2)])])
+      (rkvs2 := [("a", .map [("$merge", .str "a"), ("x", .int 1), ("y", .int 2)]),
+        ("b", .map [("$merge", .str "a"), ("y", .int 2)])])
+      simpleKey_b (by decide) (by decide) (by decide) (by decide) (by decide) hn1
+      (by decide)).trans ?_
+    exact process1_merge_step_error (ref := .str "a") (s := [("x", .int 1), ("y", .int 2)])
+      (root1 := .map [("a", .map [("x", .int 1), ("y", .int 2)]),
+        ("b", .map [("$merge", .str "a"), ("y", .int 2)])])
+      (by decide) (by decide) (get_simpleKey simpleKey_a docs (by decide)) (by decide)
+      (by rw [show fdel [("$merge", Val.str "a"), ("x", .int 1), ("y", .int 2)] "$merge" =
+            [("x", .int 1), ("y", .int 2)] from by decide]; exact hn2)
+  have ea : childLoc (some []) "a" = some [.key "a"] := rfl
+  simp only [mapStep, ea, ha]
+  rfl
+
+/-! ## 3. interpolation cycles -/
+
+/-- A closed system of interpolations — every entry is `$"{k}"` for a plain key `k` of the same
+    document — is `circularRef` for every fuel, stream and variable context. -/
+theorem C08_interp_cycle_general {kvs : Fields} (H : InterpClosed kvs)
+    (fuel : Nat) (docs : List Val) (ec : Vars) (k : String) (s : String)
+    (hp : (k, Val.str s) ∈ kvs) :
+    process2String fuel docs (.map kvs) ec s = .error .circularRef := by
+  obtain ⟨s', hs, herr⟩ := interpClosed_entry_error H fuel docs ec _ hp
+  cases hs; exact herr
+
+example : InterpClosed [("a", .str "$\"{b}\""), ("b", .str "$\"{a}\"")] := interpClosed_2
+
+/-- `a: $"{a}"` -/
+theorem C08_interp_cycle (fuel : Nat) (docs : List Val) (ec : Vars) :
+    process2String fuel docs (.map [("a", .str "$\"{a}\"")]) ec "$\"{a}\"" =
+      .error .circularRef :=
+  C08_interp_cycle_general interpClosed_1 fuel docs ec "a" _ (by simp)
+
+/-- `a: $"{b}", b: $"{a}"` -/
+theorem C08_interp_cycle_2 (fuel : Nat) (docs : List Val) (ec : Vars) :
+    process2String fuel docs (.map [("a", .str "$\"{b}\""), ("b", .str "$\"{a}\"")]) ec
+      "$\"{b}\"" = .error .circularRef ∧
+    process2String fuel docs (.map [("a", .str "$\"{b}\""), ("b", .str "$\"{a}\"")]) ec
+      "$\"{a}\"" = .error .circularRef :=
+  ⟨C08_interp_cycle_general interpClosed_2 fuel docs ec "a" _ (by simp),
+   C08_interp_cycle_general interpClosed_2 fuel docs ec "b" _ (by simp)⟩
+
+/-- The whole document: a (sorted, non-empty) closed system of interpolations without
+    `$encode` / `$decode` / `$value` keys is `circularRef` under `process2`, for every fuel. -/
+theorem C08_interp_cycle_doc {kvs : Fields} (H : InterpClosed kvs) (hne : kvs ≠ [])
+    (hs : Fields.sortedKeysB kvs = true) (h1 : fget kvs "$encode" = none)
+    (h2 : fget kvs "$decode" = none) (h3 : fget kvs "$value" = none)
+    (fuel : Nat) (docs : List Val) (ec : Vars) :
+    process2 fuel docs (.map kvs) ec (.map kvs) = .error .circularRef := by
+  cases fuel with
+  | zero => exact process2_zero _ _ _ _
+  | succ n =>
+    rw [process2]
+    rw [e_foldlM_fields_id _ kvs []]
+    · rw [← fofList, e_fofList_sorted _ hs]
+      simp only [e_ok_bind, h1, h2, h3]
+      cases kvs with
+      | nil => exact absurd rfl hne
+      | cons p rest =>
+        obtain ⟨k, v⟩ := p
+        have := interpClosed_entry_error2 H n docs ec (k, v) List.mem_cons_self
+        simp only [List.foldlM_cons, this]
+        rfl
+    · intro acc q hq
+      obtain ⟨k, v, hv, _⟩ := H q hq
+      obtain ⟨qk, qv⟩ := q
+      have : qv = .str (interpRefStr k) := hv
+      subst this
+      rfl
+
+example : Fields.sortedKeysB [("a", .str "$\"{b}\""), ("b", .str "$\"{a}\"")] = true ∧
+    fget [("a", Val.str "$\"{b}\""), ("b", .str "$\"{a}\"")] "$encode" = none ∧
+    fget [("a", Val.str "$\"{b}\""), ("b", .str "$\"{a}\"")] "$decode" = none ∧
+    fget [("a", Val.str "$\"{b}\""), ("b", .str "$\"{a}\"")] "$value" = none := by decide
+
+/-- `a: $"{a}"` as a document -/
+theorem C08_interp_cycle_doc_1 (fuel : Nat) (docs : List Val) (ec : Vars) :
+    process2 fuel docs (.map [("a", .str "$\"{a}\"")]) ec (.map [("a", .str "$\"{a}\"")]) =
+      .error .circularRef :=
+  C08_interp_cycle_doc interpClosed_1 (by decide) (by decide) (by decide) (by decide) (by decide)
+    fuel docs ec
+
+/-! ## 4. a subtree merged into itself is evaluated once -/
+
+/-- `$merge: []` refers to the whole document.  The host first loses its `$merge` key, then
+    receives a copy of the root as it is at that moment (`{a: {x: 1}}`); the copy contains no
+    reference any more, so the expansion does not recur: the result is the finite value
+    `{a: {a: {x: 1}, x: 1}}` (fuel ≥ 5), not an error. -/
+theorem C08_self_merge_value (fuel : Nat) (docs : List Val) :
+    process1 (fuel + 5) docs selfMerge (some []) selfMerge =
+      .ok (.map [("a", .map [("a", .map [("x", .int 1)]), ("x", .int 1)])],
+           .map [("a", .map [("a", .map [("x", .int 1)]), ("x", .int 1)])]) := by
+  unfold selfMerge
+  rw [process1_map_plain (by decide) (by decide), foldlM_cons]
+  have hn : mergeFields [("x", Val.int 1)] [("a", .map [("x", .int 1)])] =
+      .ok [("a", .map [("x", .int 1)]), ("x", .int 1)] := by
+    rw [mergeFields_cons, if_neg (by decide)]
+    have h1 : fget [("x", Val.int 1)] "a" = none := by decide
+    have h2 : fset [("x", Val.int 1)] "a" (.map [("x", .int 1)]) =
+        [("a", .map [("x", .int 1)]), ("x", .int 1)] := by decide
+    simp only [h1, h2, mergeFields_nil]
+  have ha : process1 (fuel + 4) docs (.map [("a", .map [("$merge", .list []), ("x", .int 1)])])
+      (some [.key "a"]) (.map [("$merge", .list []), ("x", .int 1)]) =
+      .ok (.map [("a", .map [("x", .int 1)]), ("x", .int 1)],
+           .map [("a", .map [("a", .map [("x", .int 1)]), ("x", .int 1)])]) := by
+    refine (process1_merge_step (ref := .list []) (s := [("a", .map [("x", .int 1)])])
+      (next := [("a", .map [("x", .int 1)]), ("x", .int 1)])
+      (root1 := .map [("a", .map [("x", .int 1)])])
+      (root2 := .map [("a", .map [("a", .map [("x", .int 1)]), ("x", .int 1)])])
+      (by decide) (by decide) (get_list_nil _ _) (by decide)
+      (by rw [show fdel [("$merge", Val.list []), ("x", .int 1)] "$merge" = [("x", .int 1)]
+            from by decide]; exact hn)
+      (by decide)).trans ?_
+    rw [e_process1_plain (fuel + 3) docs _ _ _ (by decide) (by decide)
+      (by
+        show depth (.map [("a", .map [("x", .int 1)]), ("x", .int 1)]) < fuel + 3
+        have : depth (.map [("a", .map [("x", .int 1)]), ("x", .int 1)]) = 2 := by decide
+        omega)]
+    exact congrArg Except.ok (by decide)
+  have ea : childLoc (some []) "a" = some [.key "a"] := rfl
+  simp only [mapStep, ea, ha, R_bind_ok, Val.isNull, Bool.false_eq_true, if_false,
+    process1_key_plain (k := "a") (by decide) (by decide), R_pure, foldlM_nil]
+  exact congrArg Except.ok (by decide)
+
+/-- so this kind of "cycle" is not an error either -/
+theorem C08_self_merge_not_error :
+    ¬ ∀ fuel, ∃ e, process1 fuel [] selfMerge (some []) selfMerge = .error e := by
+  intro h
+  obtain ⟨e, he⟩ := h 5
+  rw [C08_self_merge_value 0 []] at he
+  cases he
+
+/-! ## 5. `$parent` cycles between files -/
+
+/-- the cycle check: a file that is already on the chain of children is `circularRef` -/
+theorem C08_parent_chain_is_error (fs : FS) (cfg : RootCfg) (fuel : Nat) (path : Comps)
+    (c : Option String) (ids : List String) (chain : List Comps) (h : path ∈ chain) :
+    loadFileAndParents fs cfg (fuel + 1) path c ids chain = .error .circularRef :=
+  loadFileAndParents_chain fs cfg fuel path c ids chain h
+
+example : (["w", "p.yaml"] : Comps) ∈ [["w", "q.yaml"], ["w", "p.yaml"]] := by decide
+
+/-- the depth guard -/
+theorem C08_parent_no_fuel (fs : FS) (cfg : RootCfg) (path : Comps) (c : Option String)
+    (ids : List String) (chain : List Comps) :
+    loadFileAndParents fs cfg 0 path c ids chain = .error .circularRef :=
+  loadFileAndParents_zero fs cfg path c ids chain
+
+/-- General form.  Let `S` be a set of files such that every file in `S` loads and its first
+    parent (`ParentEdge`) is again in `S` — a cycle, or any path leading into one.  Then loading
+    any file of `S` is `circularRef`, for every fuel, child id and chain. -/
+theorem C08_parent_cycle_general {fs : FS} {cfg : RootCfg} {S : Comps → Prop}
+    (H : ParentClosed fs cfg S) (fuel : Nat) (p : Comps) (hp : S p) (c : Option String)
+    (ids : List String) (chain : List Comps) :
+    loadFileAndParents fs cfg fuel p c ids chain = .error .circularRef :=
+  parentClosed_error H fuel p hp c ids chain
+
+/-- The n-cycle `p₀ → p₁ → … → pₙ₋₁ → p₀` of first parents. -/
+theorem C08_parent_cycle_list (fs : FS) (cfg : RootCfg) (ps : List Comps)
+    (H : ∀ e ∈ ps.zip (rot1 ps), ParentEdge fs cfg e.1 e.2)
+    (fuel : Nat) (p : Comps) (hp : p ∈ ps) :
+    loadFileAndParents fs cfg fuel p none [] [] = .error .circularRef := by
+  refine C08_parent_cycle_general (S := fun x => x ∈ ps) ?_ fuel p hp none [] []
+  intro x hx
+  obtain ⟨q, hq⟩ := exists_zip_of_mem ps (rot1 ps) (length_rot1 ps).symm x hx
+  exact ⟨q, H _ hq, mem_rot1.1 (List.of_mem_zip hq).2⟩
+
+/-- Two files naming each other as parent: `p` has parent `q` and `q` has parent `p`. -/
+theorem C08_parent_cycle (fs : FS) (cfg : RootCfg) (p q : Comps) (docsP docsQ : List Val)
+    (hlp : ∀ fid, loadFile fs cfg p fid = .ok docsP)
+    (hlq : ∀ fid, loadFile fs cfg q fid = .ok docsQ)
+    (hpp : fileParents fs p docsP = .ok [q]) (hpq : fileParents fs q docsQ = .ok [p])
+    (fuel : Nat) :
+    loadFileAndParents fs cfg fuel p none [] [] = .error .circularRef := by
+  refine C08_parent_cycle_list fs cfg [p, q] ?_ fuel p (by simp)
+  intro e he
+  have hz : [p, q].zip (rot1 [p, q]) = [(p, q), (q, p)] := rfl
+  rw [hz] at he
+  simp only [List.mem_cons, List.not_mem_nil, or_false] at he
+  rcases he with rfl | rfl
+  · exact ⟨docsP, [], hlp, hpp⟩
+  · exact ⟨docsQ, [], hlq, hpq⟩
+
+-- non-vacuity: the file system `fsPQ` = { /w/p.yaml: {$parent: q}, /w/q.yaml: {$parent: p} }
+example :
+    (∀ fid, loadFile fsPQ cfgPQ ["w", "p.yaml"] fid = .ok [.map [("$parent", .str "q")]]) ∧
+    (∀ fid, loadFile fsPQ cfgPQ ["w", "q.yaml"] fid = .ok [.map [("$parent", .str "p")]]) ∧
+    fileParents fsPQ ["w", "p.yaml"] [.map [("$parent", .str "q")]] = .ok [["w", "q.yaml"]] ∧
+    fileParents fsPQ ["w", "q.yaml"] [.map [("$parent", .str "p")]] = .ok [["w", "p.yaml"]] :=
+  ⟨fsPQ_load_p, fsPQ_load_q, fsPQ_parents_p, fsPQ_parents_q⟩
+
+/-- … so loading `/w/p.yaml` (as `bkl /w/p.yaml` does, with `loadFuel`) reports the cycle -/
+theorem C08_parent_cycle_concrete (fuel : Nat) :
+    loadFileAndParents fsPQ cfgPQ fuel ["w", "p.yaml"] none [] [] = .error .circularRef :=
+  C08_parent_cycle fsPQ cfgPQ ["w", "p.yaml"] ["w", "q.yaml"] _ _ fsPQ_load_p fsPQ_load_q
+    fsPQ_parents_p fsPQ_parents_q fuel
+
+theorem C08_parent_cycle_mergeFileLayers (st : PState) :
+    mergeFileLayers fsPQ cfgPQ st ["w", "p.yaml"] = .error .circularRef := by
+  unfold mergeFileLayers
+  rw [C08_parent_cycle_concrete]; rfl
+
+/-! ## 6. a map key that evaluates to a non-string is an error, not a crash -/
+
+/-- `{"$merge:a": 1, a: 5}`: the key `$merge:a` resolves to the int 5.  (The `process2`
+    counterpart, a key `$env:X` bound to a non-string, is `C13_env_in_key`.) -/
+theorem C08_key_not_string_is_error (fuel : Nat) (docs : List Val) :
+    process1 (fuel + 3) docs (.map [("$merge:a", .int 1), ("a", .int 5)]) (some [])
+      (.map [("$merge:a", .int 1), ("a", .int 5)]) = .error .invalidType := by
+  rw [process1_map_plain (by decide) (by decide), foldlM_cons]
+  have hk : process1 (fuel + 2) docs (.map [("$merge:a", .int 1), ("a", .int 5)]) none
+      (.str "$merge:a") = .ok (.int 5, .map [("$merge:a", .int 1), ("a", .int 5)]) := by
+    rw [process1_str_merge stripPrefix_merge_a,
+      get_simpleKey simpleKey_a docs (v := .int 5) (by decide), R_bind_ok, process1_int]
+  simp only [mapStep, process1_int, R_bind_ok, Val.isNull, Bool.false_eq_true, if_false, hk]
+  rfl
+
+/-! ## 7. no reference, no lookup -/
+
+/-- The positive side of the open finding (the depth guard bounds depth, not branching: a
+    `$merge` host whose target contains the host, in a document with further references, makes
+    the evaluation grow exponentially).  A reference-free value — no `$merge` / `$replace` key,
+    no `$merge:` / `$replace:` string — never triggers a lookup: for every fuel the evaluated
+    value (or error) is the same for all streams, roots and locations, and the root is handed
+    back unchanged. -/
+theorem C08_no_reference_no_lookup (fuel : Nat) (v : Val) (hv : refFree v = true)
+    (docs₁ docs₂ : List Val) (root₁ root₂ : Val) (loc₁ loc₂ : Loc) :
+    Except.map Prod.fst (process1 fuel docs₁ root₁ loc₁ v) =
+      Except.map Prod.fst (process1 fuel docs₂ root₂ loc₂ v) ∧
+    ∀ x r', process1 fuel docs₁ root₁ loc₁ v = .ok (x, r') → r' = root₁ := by
+  rw [process1_refFree fuel v hv docs₁ root₁ loc₁, process1_refFree fuel v hv docs₂ root₂ loc₂]
+  cases process1 fuel [] .null none v with
+  | error e => exact ⟨rfl, fun x r' h => by cases h⟩
+  | ok r => exact ⟨rfl, fun x r' h => by cases h; rfl⟩
+
+/-- the same as a rewrite rule -/
+theorem C08_no_reference_no_lookup_eq (fuel : Nat) (v : Val) (hv : refFree v = true)
+    (docs : List Val) (root : Val) (loc : Loc) :
+    process1 fuel docs root loc v =
+      Except.map (fun r => (r.1, root)) (process1 fuel [] .null none v) :=
+  process1_refFree fuel v hv docs root loc
+
+example : refFree (.map [("k", .list [.str "x$merge:", .map [("$merger", .null)]])]) = true := by
+  decide
+
+/-- plain data (C06: nothing recognised by the evaluator) is reference-free -/
+theorem C08_plain_is_refFree (v : Val) (h : plain v = true) : refFree v = true :=
+  plain_refFree v h
+
+/-! ## 8. totality -/
+
+/-- Totality is by construction: `process1`, `process2`, `process2String`, `loadFileAndParents`
+    recurse structurally on the fuel (= the depth guards of the Go code), `merge` and `get` by
+    well-founded recursion, `outputDocuments` is a composition of these; Lean accepted all of
+    them without `partial`, so each call denotes a value — a result or a reported error. -/
+theorem C08_total :
+    (∀ fuel docs root loc v, ∃ r, process1 fuel docs root loc v = r) ∧
+    (∀ fuel docs root ec v, ∃ r, process2 fuel docs root ec v = r) ∧
+    (∀ d s, ∃ r, merge d s = r) ∧
+    (∀ docs env, ∃ r, outputDocuments docs env = r) ∧
+    (∀ fs cfg fuel p c ids chain, ∃ r, loadFileAndParents fs cfg fuel p c ids chain = r) :=
+  ⟨fun _ _ _ _ _ => ⟨_, rfl⟩, fun _ _ _ _ _ => ⟨_, rfl⟩, fun _ _ => ⟨_, rfl⟩,
+   fun _ _ => ⟨_, rfl⟩, fun _ _ _ _ _ _ _ => ⟨_, rfl⟩⟩
+
 end Bkl
